@@ -20,7 +20,7 @@ PROPERTY = 'C04'
 RULE = ('streams = handshake-coalescing prefix or established session, then KEEPALIVE / marked UPDATE / '
         'body-malformed UPDATE / ROUTE-REFRESH, optionally one framing violation (marker, length, type, per-type length), trailer, '
         'truncated tail; each delivered whole and under 1-cuts, 2-cuts, byte-wise and random cuts; streams of 300 / 1100 / 3000 '
-        'messages delivered in one segment and in several. Non-trivial = '
+        'messages delivered in one segment and in several; the agent\'s own configuration varied (route-refresh kinds off, no capabilities at all, more families, rib + hold 9). Non-trivial = '
         'a message boundary strictly inside a segment or a segment boundary strictly inside a message; '
         'distinct by (stream, segmentation).')
 ASSUMPTIONS = [
@@ -131,12 +131,24 @@ QUEUED = {
 }
 
 
-def deliver(mode, stream, cuts, queued=None):
+LOCAL = {
+    # the agent's own configuration: what it advertises does not change which message types and lengths are well framed
+    None: {},
+    'no-rr': {'route_refresh': False}, 'no-cisco-rr': {'cisco_route_refresh': False},
+    'no-rr-at-all': {'route_refresh': False, 'cisco_route_refresh': False, 'enhanced_route_refresh': False},
+    'bare': {'route_refresh': False, 'cisco_route_refresh': False, 'enhanced_route_refresh': False, 'four_bytes_as': False,
+             'graceful_restart': False, 'cisco_multi_session': False},
+    'families': {'afi_safi': ('ipv4', 'ipv6', 'vpnv4', 'flowspec')},
+    'rib-hold9': {'rib': True, 'hold_time': 9},
+}
+
+
+def deliver(mode, stream, cuts, queued=None, local=None):
     """Fresh agent, deliver `stream` cut at `cuts` (sorted offsets). Returns observation dict."""
     if mode == 'est':
-        sim, c = ss.new_established()
+        sim, c = ss.new_established(**LOCAL[local])
     else:
-        sim, c = ss.new_established(upto='OPENSENT')
+        sim, c = ss.new_established(upto='OPENSENT', **LOCAL[local])
     for req in QUEUED.get(queued) or []:
         import copy as _copy
         sim.handler.inter_mq.put(_copy.deepcopy(req))
@@ -193,7 +205,7 @@ def check_case(case, col):
             cuts_l = list(range(1, len(stream)))
         else:
             cuts_l = sorted(set(x for x in cuts if 0 < x < len(stream)))
-        obs = deliver(mode, stream, cuts_l, case.get('queued'))
+        obs = deliver(mode, stream, cuts_l, case.get('queued'), case.get('local'))
         col.maximum('work_ratio', obs['max_ratio'])
         tag = 'whole' if not cuts_l else ('bytes' if cuts == 'bytes' else 'cut')
         if obs['over_budget'] is not None:
@@ -309,7 +321,11 @@ def stream_case(draw):
         cutsets.append(sorted(draw(st.sets(st.integers(1, max(1, len(stream) - 1)), min_size=1, max_size=4))))
     if draw(st.integers(0, 5)) == 0 and len(stream) <= 200:
         cutsets.append('bytes')
-    return {'mode': mode, 'items': items, 'cuts': cutsets, 'queued': draw(st.sampled_from([None, None, None, 'good', 'bad', 'both']))}
+    case = {'mode': mode, 'items': items, 'cuts': cutsets, 'queued': draw(st.sampled_from([None, None, None, 'good', 'bad', 'both']))}
+    local = draw(st.sampled_from([None, None] + sorted(k for k in LOCAL if k)))
+    if local:
+        case['local'] = local
+    return case
 
 
 # ------------------------------------------------------------------------------------------ shards
@@ -326,6 +342,7 @@ def shards(tier):
     # very many messages in one segment (TCP delivers up to 64 KB per read)
     for j, n in enumerate((300, 1100, 3000)):
         out.append({'name': 'bulk-%d' % j, 'kind': 'bulk', 'n': n})
+    out.append({'name': 'local-config', 'kind': 'local-grid'})
     # grids over the header fields
     if tier == 'quick':
         lens = [0, 1, 18, 19, 20, 22, 23, 29, 4096, 4097, 65535]
@@ -389,6 +406,21 @@ def run_shard(spec, seed, col, tier):
                      sample=({'mode': mode, 'items': items, 'cuts': case['cuts'][:3]} if i == 0 else None))
             for sig, detail in sigs:
                 col.fail(sig, {'mode': mode, 'items': items, 'cuts': case['cuts']}, detail)
+    elif kind == 'local-grid':
+        # every local configuration x every known message type / one violation of each kind, whole and cut
+        streams = [[['K'], ['U', 1], ['R', 1, 1, 5], ['K']], [['R', 1, 1, 128], ['U', 2]], [['R', 2, 128, 5], ['R', 25, 70, 128], ['K']],
+                   [['UM', 1], ['R', 1, 1, 5]], [['K'], ['XT', 6, 4], ['K']], [['K'], ['XL', 18, 5, 0], ['K']],
+                   [['R', 1, 1, 5], ['XM', 3, 0], ['K']], [['XS', 4, 7], ['R', 1, 1, 5]]]
+        for local in sorted(k for k in LOCAL if k):
+            for mode in ('est', 'hs'):
+                for items in streams:
+                    its = ([['O', 90, []], ['K']] if mode == 'hs' else []) + items
+                    L = len(build(its))
+                    case = {'mode': mode, 'items': its, 'cuts': [[], [L // 3, 2 * L // 3], [L - 1]], 'local': local}
+                    sigs = check_case(case, col)
+                    col.case(case, True, labels=['local-config-grid', 'local:' + local])
+                    for sig, detail in sigs:
+                        col.fail(sig, case, detail)
     elif kind == 'bulk':
         n = spec['n']
         for tail in ([['U', 7]], [['U', 7], ['XM', 15, 0xFE], ['U', 9]], [['XL', 18, 2, 3], ['K']]):
